@@ -137,6 +137,18 @@ func c13Seeds() []c13Seed {
 			}
 		}
 	}
+	// further selection shapes of calendar-data (expand without comp, empty, absent) and address-data
+	for _, cd := range []string{`<C:calendar-data><C:expand start="20200101T000000Z" end="20200201T000000Z"/></C:calendar-data>`, `<C:calendar-data/>`, ``} {
+		q := `<?xml version="1.0"?><C:calendar-query xmlns:D="DAV:" xmlns:C="urn:ietf:params:xml:ns:caldav"><D:prop><D:getetag/>` + cd + `</D:prop><C:filter><C:comp-filter name="VCALENDAR"/></C:filter></C:calendar-query>`
+		m := `<?xml version="1.0"?><C:calendar-multiget xmlns:D="DAV:" xmlns:C="urn:ietf:params:xml:ns:caldav"><D:prop><D:getetag/>` + cd + `</D:prop><D:href>/u/c/k1/o1.ics</D:href></C:calendar-multiget>`
+		for _, b := range []string{q, m} {
+			out = append(out, c13Seed{Handler: "caldav", BodyKind: "xml", NeedsXML: true, Req: harness.Req{Method: "REPORT", Path: "/u/c/k1/", Header: with(xmlH(), "Depth", "1"), Body: b}})
+		}
+	}
+	for _, ad := range []string{`<C:address-data><C:allprop/></C:address-data>`, `<C:address-data/>`, ``} {
+		q := `<?xml version="1.0"?><C:addressbook-query xmlns:D="DAV:" xmlns:C="urn:ietf:params:xml:ns:carddav"><D:prop><D:getetag/>` + ad + `</D:prop><C:filter><C:prop-filter name="FN"/></C:filter></C:addressbook-query>`
+		out = append(out, c13Seed{Handler: "carddav", BodyKind: "xml", NeedsXML: true, Req: harness.Req{Method: "REPORT", Path: "/u/c/k1/", Header: with(xmlH(), "Depth", "1"), Body: q}})
+	}
 	// principal helper
 	for _, m := range []string{"OPTIONS", "GET", "DELETE", "FOO", "REPORT"} {
 		out = append(out, c13Seed{Handler: "principal", Req: harness.Req{Method: m, Path: "/u/"}})
